@@ -40,6 +40,9 @@ KIND_POOL = (
     ('zero', 'None', 'str', 'weird', 'list', 'zero', 'None', 'str'),
     ('list', 'str', 'weird', 'None', 'zero', 'list', 'weird', 'None'),
     ('weird', 'list', 'None', 'zero', 'None', 'str', 'zero', 'list'),
+    # resources of the library's own types: a map of resources, a handle, a world
+    ('rmap', 'handle', 'world', 'None', 'rmap', 'list', 'handle', 'world'),
+    ('zero', 'rmap', 'weird', 'world', 'handle', 'rmap', 'str', 'rmap'),
 )
 
 
@@ -332,7 +335,7 @@ def event(op, args, obs):
 
 def record(desper, K, seed, n_traces, n_calls):
     rnd = random.Random(seed)
-    ad = Recorder(desper, probe=False, depth=K['MaxDepth'], keep_snap=K.get('KeepSnap', 10 ** 6))
+    ad = Recorder(desper, probe=False, depth=K['MaxDepth'], keep_snap=K.get('KeepSnap', 10 ** 6), rot=0)
     order, hd = list(K['MapOrder']), list(K['Hd'])
     traces = []
     for _t in range(n_traces):
